@@ -540,3 +540,78 @@ Proof.
   destruct (help_returns (rank s k) s k I3 NB Hk (le_n _)) as (s' & RUN & RET & LEN & _).
   exists (help (rank s k) s k), s'. split; auto. split; auto. pose proof (rank_bound s k). lia.
 Qed.
+
+
+(* ---- what is left after Close ends by its own steps ---- *)
+(* `final` lets a read pump be on its way out (its socket is closed, or it holds a message and closeConn / writeDone is closed).
+   Every such read pump ends by its own next step, whatever else happens, and nothing else changes. *)
+Definition rp_out (t : tr) : bool := match rp t with RPExit => true | _ => false end.
+Definition gone_all (s : st) : Prop := crashed s = false /\ forall g, g < length (trs s) -> tr_gone (getT s g) = true.
+
+Lemma step_rp_gone s g : gone_all s -> g < length (trs s) ->
+  (rp (getT s g) = RPExit /\ step good s (LRp g) = None) \/
+  (step good s (LRp g) = Some (setT s g (fun t => t <| rp := RPExit |> <| cwp := true |>))).
+Proof.
+  intros [NC G] Hg. specialize (G g Hg). unfold tr_gone in G. rewrite !andb_true_iff in G. destruct G as [[[_ SK] _] R].
+  apply Nat.ltb_lt in Hg as Hg'. unfold step. rewrite NC, Hg'. cbn [negb]. cbv zeta.
+  destruct (rp (getT s g)) eqn:E.
+  - right. rewrite SK. reflexivity.
+  - right. cbn [rp_cconn rp_wdone good andb]. rewrite orb_comm in R. rewrite R. reflexivity.
+  - left. auto.
+Qed.
+
+Lemma gone_all_setT s g : gone_all s -> gone_all (setT s g (fun t => t <| rp := RPExit |> <| cwp := true |>)).
+Proof.
+  intros [NC G]. split; [exact NC|]. intros g' Hg'. rewrite len_setT in Hg'. rewrite getT_setT.
+  destruct (_ && _); [|auto]. specialize (G g' Hg'). unfold tr_gone in *. cbn. rewrite !andb_true_iff in *. tauto.
+Qed.
+
+Lemma read_pumps_end_gen idx : forall s, gone_all s ->
+  let s' := exec good s (map LRp idx) in
+  gone_all s' /\ cl s' = cl s /\ length (trs s') = length (trs s) /\
+  (forall g, rp_out (getT s g) = true -> rp_out (getT s' g) = true) /\
+  (forall g, In g idx -> g < length (trs s) -> rp_out (getT s' g) = true) /\
+  (forall g, wp (getT s' g) = wp (getT s g) /\ hr (getT s' g) = hr (getT s g) /\ sockc (getT s' g) = sockc (getT s g)).
+Proof.
+  induction idx as [|g r IH]; intros s G; cbn [map exec].
+  - cbn. split; [exact G|]. repeat split; auto; intros g [].
+  - destruct (lt_dec g (length (trs s))) as [Hg|Hg].
+    + destruct (step_rp_gone s g G Hg) as [[E N]|S].
+      * rewrite N. destruct (IH s G) as (A & CL & B & C & D & F). split; [exact A|]. repeat split; auto; try apply F.
+        intros g' [<-|I] H'; auto. apply C. unfold rp_out. rewrite E. reflexivity.
+      * rewrite S. set (s1 := setT s g _). destruct (IH s1 (gone_all_setT s g G)) as (A & CL & B & C & D & F).
+        assert (L1 : length (trs s1) = length (trs s)) by apply len_setT.
+        split; [exact A|]. split; [rewrite CL; reflexivity|]. repeat split; auto.
+        -- lia.
+        -- intros g' H'. apply C. subst s1. rewrite getT_setT. destruct (_ && _); auto.
+        -- intros g' [<-|I] H'; [|apply D; auto; lia]. apply C. subst s1. rewrite getT_setT, Nat.eqb_refl. apply Nat.ltb_lt in Hg. rewrite Hg. reflexivity.
+        -- destruct (F g0) as (F1 & _ & _). rewrite F1. subst s1. rewrite getT_setT. destruct (_ && _); reflexivity.
+        -- destruct (F g0) as (_ & F1 & _). rewrite F1. subst s1. rewrite getT_setT. destruct (_ && _); reflexivity.
+        -- destruct (F g0) as (_ & _ & F1). rewrite F1. subst s1. rewrite getT_setT. destruct (_ && _); reflexivity.
+    + assert (step good s (LRp g) = None) as N.
+      { destruct G as [NC _]. unfold step. rewrite NC. rewrite (proj2 (Nat.ltb_ge _ _)) by lia. reflexivity. }
+      rewrite N. destruct (IH s G) as (A & CL & B & C & D & F). split; [exact A|]. repeat split; auto; try apply F.
+      intros g' [<-|I] H'; [lia|auto].
+Qed.
+
+Lemma exec_app c s a b : exec c s (a ++ b) = exec c (exec c s a) b.
+Proof. revert s; induction a as [|l r IH]; intros s; cbn; auto. destruct (step c s l); auto. Qed.
+
+(* after a Close which tore the connection down has returned: the read pumps which are still on their way out end by their
+   own next steps - a schedule of at most one step per transport - and then no goroutine of the connection is left at all *)
+Theorem nothing_left_after_close ls : let s := exec good init ls in tore s = true ->
+  let s' := exec good s (map LRp (seq 0 (length (trs s)))) in
+  final s' = true /\ forallb rp_out (trs s') = true.
+Proof.
+  intros s T s'. pose proof (inv_exec ls init inv_init) as I. fold s in I.
+  pose proof (inv_final s I T) as F.
+  assert (gone_all s) as G.
+  { split; [apply (i_nc _ I)|]. intros g Hg. unfold final in F. rewrite !andb_true_iff in F. destruct F as [[_ F] _].
+    rewrite (forallb_nth _ _ (mkTr RPExit WPExit HRExit true true true true true true)) in F. apply F; auto. }
+  destruct (read_pumps_end_gen (seq 0 (length (trs s))) s G) as (A & CL & B & C & D & E). fold s' in A, CL, B, C, D, E.
+  split.
+  - apply inv_final; [unfold s', s; rewrite <- exec_app; apply inv_exec; apply inv_init|].
+    unfold tore in *. rewrite CL. exact T.
+  - rewrite (forallb_nth _ _ (mkTr RPExit WPExit HRExit true true true true true true)). intros g Hg. apply D; [|lia].
+    apply in_seq. lia.
+Qed.
